@@ -12,7 +12,8 @@ import hashlib
 import re
 
 _P = None
-OPNAME = {"u": "Unserialize", "v": "Validate", "s": "Serialize", "c": "ValidateCompatibility"}
+OPNAME = {"u": "Unserialize", "v": "Validate", "s": "Serialize", "c": "ValidateCompatibility",
+          "cs": "ValidateCompatibility with the SCHEMA"}
 
 
 def _sx(x):
@@ -169,6 +170,198 @@ def _collides(v):
     return any(_collides(c) for c in v)
 
 
+# ---- D72: keys that CONVERT to the same key under the key schema of the map they sit in -------------------
+# (subsumes the text-based class of D19: equal texts convert alike under an int or a string key schema)
+
+_INT_TEXT = re.compile(r"^[+-]?[0-9]+$")
+_TRUE_WORDS = {"1", "yes", "y", "on", "true", "enable", "enabled"}
+_FALSE_WORDS = {"0", "no", "n", "off", "false", "disable", "disabled"}
+
+
+def _head(n):
+    return n[0] if isinstance(n, list) and n and isinstance(n[0], str) else None
+
+
+def _fl(x):
+    return _P.fl_value(x)
+
+
+def _conv_key(K, k):
+    """the key a raw map key k becomes under the key schema K (a hashable), None when it is rejected or unknown"""
+    if not isinstance(k, list) or len(k) != 3:
+        return None
+    kind, typ, pay = k
+    plain = isinstance(typ, str)                      # not a named Go type
+    hk = _head(K)
+    if K == "any":
+        # any.go checkAndConvert goes by reflect.Kind: named types convert like their underlying kinds
+        if kind == "i":
+            z = int(pay)
+            return ("i", z) if z < 2 ** 63 else None
+        if kind == "s":
+            return ("s", pay[1])
+        if kind == "f":
+            v = _fl(pay)
+            return ("f", v) if v is not None else None
+        if kind == "b":
+            return ("b", pay)
+        return None
+    if hk in ("int", "enum_int"):
+        units = K[3] if hk == "int" else K[2]
+        if kind == "i" and plain:
+            z = int(pay)
+            return ("i", z) if -2 ** 63 <= z < 2 ** 63 else None
+        if kind == "s" and plain:
+            txt = pay[1]
+            if units != "none":
+                return ("i", int(txt)) if re.match(r"^[0-9]+$", txt) else None   # unit strings: only bare counts are read here
+            if _INT_TEXT.match(txt) and -2 ** 63 <= int(txt) < 2 ** 63:
+                return ("i", int(txt))
+            return None
+        if kind == "f" and plain:
+            v = _fl(pay)
+            if v is not None and v == int(v) and abs(v) < 2 ** 63:
+                return ("i", int(v))
+            return None
+        if kind == "b" and plain:
+            return ("i", 1 if pay == "1" else 0)
+        return None
+    if hk in ("string", "enum_str"):
+        if kind == "s" and plain:
+            return ("s", pay[1])
+        if kind == "i" and plain:
+            return ("s", str(int(pay)))
+        if kind == "f" and plain:
+            v = _fl(pay)
+            return ("s", "%f" % v) if v is not None else None
+        return None
+    if hk == "float":
+        if K[3] != "none":
+            return None
+        if kind == "f":
+            return ("f", _fl(pay))
+        if kind == "i" and plain:
+            return ("f", float(int(pay)))
+        if kind == "s" and plain:
+            try:
+                return ("f", float(pay[1]))
+            except ValueError:
+                return None
+        return None
+    if K == "bool":
+        if kind == "b":
+            return ("b", pay == "1")
+        if kind == "i" and pay in ("0", "1"):
+            return ("b", pay == "1")
+        if kind == "s" and plain:
+            w = pay[1].lower()
+            return ("b", True) if w in _TRUE_WORDS else ("b", False) if w in _FALSE_WORDS else None
+        return None
+    return None
+
+
+def _value_collision(t, v, tab, ext, depth=0):
+    """the argument v, read under the schema t, contains a map two of whose keys convert to the same key"""
+    if depth > 60 or not isinstance(v, list) or not v:
+        return False
+    h = _head(t)
+    if t == "any":
+        if v[0] == "sl":
+            return any(_value_collision("any", x, tab, ext, depth + 1) for x in v[3:])
+        if v[0] == "m":
+            seen = set()
+            for e in v[3:]:
+                c = _conv_key("any", e[0])
+                if c is not None:
+                    if c in seen:
+                        return True
+                    seen.add(c)
+            return any(_value_collision("any", e[1], tab, ext, depth + 1) for e in v[3:])
+        return False
+    if h == "ref":
+        ns = t[2][1]
+        table = tab if ns == "" else ext.get(ns, {})
+        o = table.get(t[1][1])
+        return o is not None and _value_collision(o, v, table, ext, depth + 1)
+    if h == "scope":
+        table = {o[0][1]: o[1] for o in t[1]}
+        o = table.get(t[2][1])
+        return o is not None and _value_collision(o, v, table, ext, depth + 1)
+    if h == "list":
+        return v[0] == "sl" and any(_value_collision(t[1], x, tab, ext, depth + 1) for x in v[3:])
+    if h == "map":
+        if v[0] != "m":
+            return False
+        seen = set()
+        for e in v[3:]:
+            c = _conv_key(t[1], e[0])
+            if c is not None:
+                if c in seen:
+                    return True
+                seen.add(c)
+        return any(_value_collision(t[2], e[1], tab, ext, depth + 1) for e in v[3:])
+    if h == "object":
+        props = {p[0][1]: p[1][1] for p in t[3]}
+        if v[0] == "m":
+            for e in v[3:]:
+                k = e[0]
+                if isinstance(k, list) and len(k) == 3 and k[0] == "s" and isinstance(k[2], tuple) and k[2][1] in props:
+                    if _value_collision(props[k[2][1]], e[1], tab, ext, depth + 1):
+                        return True
+            return False
+        if len(props) == 1:                            # single-property shorthand
+            return _value_collision(list(props.values())[0], v, tab, ext, depth + 1)
+        return False
+    if h == "oneof":
+        return any(_value_collision(m[1], v, tab, ext, depth + 1) for m in t[2])
+    return False
+
+
+def _ext_tables(env):
+    out = {}
+    try:
+        for ns in env[1][1]:
+            out[ns[0][1]] = {o[0][1]: o[1] for o in ns[1]}
+    except Exception:
+        pass
+    return out
+
+
+def collides_by_value(pl, arg):
+    return _value_collision(pl[2], arg, {}, _ext_tables(pl[1]))
+
+
+def d72_match(m, case, obs, pred):
+    """class of D19 / D72 decided on the CONVERTED keys: the only failures of the case are `differs` results of
+    calls whose own argument holds a map two of whose keys become the same key under that map's key schema
+    (int mapper, string mapper, float / bool mapper, the any conversion).  No mutation, no state change, every
+    other item exactly as the model predicts."""
+    if "mutated" in obs or "(state changed)" in obs or "(after differs)" in obs:
+        return False
+    o, p = _parse_obs(obs), _parse_obs(pred)
+    if o is None or p is None or len(o) != len(p):
+        return False
+    pl = _P.case_payload(case)
+    if pl[0] != "c12":
+        return False
+    calls = _calls(pl)
+    k = 0
+    hit = False
+    for a, b in zip(o[1:], p[1:]):
+        if isinstance(a, list) and a and a[0] in ("coll", "state", "after"):
+            if a != b:
+                return False
+            continue
+        if a != b:
+            if not (isinstance(a, list) and isinstance(b, list) and a[0] == b[0] and a[2:] == b[2:] and a[1] == "differs"):
+                return False
+            if k >= len(calls) or not collides_by_value(pl, calls[k][1]):
+                return False
+            hit = True
+        k += 1
+    return hit
+
+
 def register(props):
     global _P
     _P = props
@@ -178,6 +371,7 @@ def register(props):
     props.DIRECT[("C12", "c12struct")] = pure_direct
     props.EXPLAIN[("C12", "c12pure")] = pure_explain
     props.KNOWN_PREDICATES["c12_key_collision"] = d19_match
+    props.KNOWN_PREDICATES["c12_key_collision_by_value"] = d72_match
     props.PROPS["C12"] = {
         "theory": "Properties/C12.v",
         "families": ["c12pure", "c12struct"],
@@ -186,9 +380,17 @@ def register(props):
                 "every fixed schema of the C04 family and on seeded generated scopes; every call evaluated 20 times on freshly built "
                 "arguments on ONE instance; observables: outcome class, same/differs over the 20 results (canonical value), kept/mutated "
                 "(canonical print of the argument before/after), state (GetDefaults of every contained object before/after/fresh), "
-                "after (every call and three probes on the used vs a fresh instance). c12struct: the same on struct-mapped parents with "
-                "struct-typed members that have defaults. distinct by case text; non-trivial = >= 2 calls with a failing call or a "
-                "structured argument",
+                "after (every call and three probes on the used vs a fresh instance; for schemas with inline objects and no scope "
+                "also once on an instance whose objects are struct literals - not built by a constructor, decoded-default cache "
+                "empty - before anything else touched it). Added input classes: one entry of a map with >= 2 entries corrupted "
+                "(ValidateCompatibility / Unserialize must not stop at the first entry); two spellings of one integer key ('7' / "
+                "'07' / '+7' / int64 7: known-finding class D72); (cs SCHEMA2): ValidateCompatibility with a SCHEMA as argument - "
+                "the schema itself or a copy with one node changed (enum value added / dropped / named, bounds moved, property "
+                "dropped), built afresh for each of the 20 evaluations; its verdict is projected away (C15's), its purity flags are "
+                "not. c12struct: the same on struct-mapped parents with struct-typed members that have defaults, and on generated "
+                "struct-mapped schemas over the struct family of xstruct_types.go (T and *T, embedded structs and embedded pointers, "
+                "nil pointers at every pointer position of the native arguments). distinct by case text; non-trivial = >= 2 calls "
+                "with a failing call or a structured argument",
         "assumptions": ["no two keys of one map read the same after conversion (D19: known-finding class, refuted in the model)",
                         "argument preservation is observed on the implementation (Gallina values are immutable): partial"],
         "level_text": "Theorems (all fuels, environments, schemas, values): (1) C12_order_independent - verdict AND results, both "
@@ -216,6 +418,9 @@ def register(props):
                       "(keys_distinct = kfree, kc). Tied to the code by the c12pure family (outcome class + the purity flags); "
                       "struct-mapped objects by the direct check only. The class predicate of D19 (has_key_collision, key TEXTS) "
                       "under-approximates the defect class: keys whose texts differ but that convert to one key (\"1\"/\"01\", "
-                      "\"1\"/\"+1\" under int keys) are outside it (C12_result_refuted).",
+                      "\"1\"/\"+1\" under int keys) are outside it (C12_result_refuted); they are generated, and recognised by the "
+                      "class predicate c12_key_collision_by_value (D72), which walks schema and argument together and compares the "
+                      "keys AS CONVERTED by the key schema of the map they sit in (int / string / float / bool mappers, the any "
+                      "conversion) - an order dependence anywhere else is still a violation.",
         "design_ref": "DESIGN.md §5 C12",
     }
